@@ -239,6 +239,37 @@ pub struct BuilderConfig {
     /// made seconds before the build) instead of the fixed `source_date`
     #[serde(default)]
     pub source_date_secs_ago: Option<u32>,
+    /// sign through a caller-written `Signing` implementation that reads only the first bytes of
+    /// the data it is handed and returns a signature prepared elsewhere (a detached signer)
+    #[serde(default)]
+    pub lazy_signer: bool,
+}
+
+/// a `Signing` implementation of the caller's own: it does not drain `data`
+#[derive(Debug)]
+pub struct LazySigner {
+    pub blob: Vec<u8>,
+}
+
+impl rpm::signature::Signing for LazySigner {
+    type Signature = Vec<u8>;
+    fn sign(&self, mut data: impl std::io::Read, _t: rpm::Timestamp) -> Result<Vec<u8>, rpm::Error> {
+        let mut first = [0u8; 7];
+        let _ = data.read(&mut first);
+        Ok(self.blob.clone())
+    }
+    fn algorithm(&self) -> rpm::signature::AlgorithmType {
+        rpm::signature::AlgorithmType::EdDSA
+    }
+}
+
+pub fn lazy_signer() -> LazySigner {
+    static BLOB: std::sync::OnceLock<Vec<u8>> = std::sync::OnceLock::new();
+    let blob = BLOB.get_or_init(|| {
+        use rpm::signature::Signing;
+        super::keys::keys().signers[2].sign(&b"signed somewhere else"[..], rpm::Timestamp(1_600_000_000)).expect("prepare a signature")
+    });
+    LazySigner { blob: blob.clone() }
 }
 
 impl BuilderConfig {
@@ -271,6 +302,7 @@ impl BuilderConfig {
             source_date_zone: None,
             setters_last: false,
             source_date_secs_ago: None,
+            lazy_signer: false,
         }
     }
 
@@ -486,7 +518,14 @@ fn build_in(
         };
     }
     for (n, t, ts) in &cfg.changelog {
-        b = b.add_changelog_entry(n, t, *ts);
+        // with a zoned source date the changelog times are zoned chrono values as well
+        b = match cfg.source_date_zone.and_then(chrono::FixedOffset::east_opt) {
+            Some(tz) => {
+                use chrono::TimeZone;
+                b.add_changelog_entry(n, t, tz.timestamp_opt(*ts as i64, 0).single().expect("valid instant"))
+            }
+            None => b.add_changelog_entry(n, t, *ts),
+        };
     }
     for s in &cfg.scriptlets {
         let mut sc = rpm::Scriptlet::new(s.body.clone());
@@ -516,6 +555,7 @@ fn build_in(
     }
     rpm::verif_hooks::set_force_large_files(cfg.force_large);
     let r = match cfg.signer {
+        _ if cfg.lazy_signer => b.build_and_sign(lazy_signer()),
         None => b.build(),
         Some(k) => {
             let ks = super::keys::keys();
@@ -640,7 +680,7 @@ pub fn component() -> BoxedStrategy<String> {
         1 => "[a-z]{1,2}[é漢]",
         1 => "\\.[a-z]{1,4}",
         1 => "[a-z]{1,3} [a-z]{1,3}",
-        1 => proptest::sample::select(vec!["a", "a-b", "a.b", "a b", "ab", "A", "usr", "etc", "bin"]).prop_map(|s| s.to_string()),
+        1 => proptest::sample::select(vec!["a", "a-b", "a.b", "a b", "ab", "A", "usr", "etc", "bin", "TRAILER!!!"]).prop_map(|s| s.to_string()),
     ]
     .boxed()
 }
@@ -733,6 +773,9 @@ pub fn config_any_reuse(p: CfgParams) -> BoxedStrategy<BuilderConfig> {
     (config_any(p), 0u8..4, 0u32..2_000_000_000, any::<bool>())
         .prop_map(|(mut c, r, mtime, setters_last)| {
             c.setters_last = setters_last;
+            if mtime % 5 == 0 {
+                c.source_date_zone = Some([7200, -28800, 19800, 45900][(mtime / 5 % 4) as usize]);
+            }
             if r == 0 && c.files.len() >= 2 {
                 c.reuse_source = true;
                 let base = c.files[0].content.size;
@@ -756,7 +799,7 @@ pub fn config_any(p: CfgParams) -> BoxedStrategy<BuilderConfig> {
     let opt_s = || proptest::option::of(gstr());
     let meta = if p.rich_meta {
         (
-            (word(), "[0-9][0-9a-z.~^+]{0,8}", gstr(), word(), gstr()),
+            (prop_oneof![10 => word(), 1 => proptest::sample::select(vec![64usize, 65, 66, 67, 130]).prop_map(|n| "n".repeat(n))], "[0-9][0-9a-z.~^+]{0,8}", gstr(), word(), gstr()),
             (proptest::option::of(any::<u32>()), proptest::option::of("[0-9a-z][0-9a-z._]{0,8}"), opt_s(), opt_s(), opt_s()),
             (opt_s(), opt_s(), opt_s(), opt_s(), opt_s()),
             vec(dep_any(), 0..6),
@@ -834,6 +877,7 @@ pub fn config_any(p: CfgParams) -> BoxedStrategy<BuilderConfig> {
                     source_date_zone: None,
                     setters_last: false,
                     source_date_secs_ago: None,
+                    lazy_signer: false,
                 }
             },
         )
